@@ -41,7 +41,7 @@ def histories(ctx):
     rng = ctx.rng
     quick = ctx.tier == "quick"
     hs = []
-    for i in range(10 if quick else 300):
+    for i in range(30 if quick else 300):
         song = c07.gen_song(rng, loops="none")
         song.loops = None
         img = song.encode(running_status=rng.random() < 0.5)
